@@ -1049,6 +1049,13 @@ func (i *interpreter) runMain(entry *ssa.Function) (end pathEnd) {
 			if init := entry.Pkg.Func("init"); init != nil {
 				i.callSSAFrom(fr0, init, nil)
 			}
+			// internal/oserror is only reachable through packages whose init is
+			// not run (os, syscall); the error variables of os alias its variables.
+			if oe := i.prog.ImportedPackage("internal/oserror"); oe != nil && !i.initRun[oe] {
+				if init := oe.Func("init"); init != nil {
+					i.callSSAFrom(fr0, init, nil)
+				}
+			}
 			// Package-level state is shared by the following paths of this worker
 			// as long as no path writes to it (every write site calls noteWrite).
 			if len(ps.taken) == 0 && len(ps.events) == 0 && len(ps.sched.gs) == 1 {
